@@ -2,6 +2,7 @@ package main
 
 import (
 	"bytes"
+	"sync/atomic"
 	"regexp"
 	"context"
 	"fmt"
@@ -100,6 +101,7 @@ type solveOpts struct {
 	all      bool // run every solver on every obligation (thorough)
 	jobs     int
 	seed     int
+	failFast bool
 }
 
 
@@ -263,7 +265,14 @@ func discharge(obls []*Obligation, opt solveOpts) {
 	// stage 2: instantiation-heavy goals vary from a fraction of a second to a timeout with the solver's
 	// random seed and with irrelevant hypotheses; race several configurations, the first answer wins
 	hsem := make(chan struct{}, 4)
+	var failed int32
 	for _, h := range hard {
+		if opt.failFast && atomic.LoadInt32(&failed) >= 8 {
+			// self-test runs only need to know that the change is reported: once eight obligations have
+			// failed for good the rest is not raced (they stay undecided and are reported as such)
+			h.o.Tried = append(h.o.Tried, "not raced (fail-fast)")
+			continue
+		}
 		wg.Add(1)
 		hsem <- struct{}{}
 		go func(h hardItem) {
@@ -271,6 +280,9 @@ func discharge(obls []*Obligation, opt solveOpts) {
 			defer func() { <-hsem }()
 			rs := raceSolvers(h.o, h.file, 3*h.tmo, h.want)
 			h.o.Tried = append(h.o.Tried, rs...)
+			if !h.o.ok() {
+				atomic.AddInt32(&failed, 1)
+			}
 		}(h)
 	}
 	wg.Wait()
